@@ -1,18 +1,24 @@
-\* quick tier: 4 valid + 9 invalid provider descriptors, 9 namespace
-\* arguments, 9 targets, one key
+\* quick, instance-write side: valid descriptors 1,2 (instance-write) + 9 refused
+\* descriptors, every Create/Modify/Delete shape, <= 1 instance
 SPECIFICATION Spec
 CONSTANTS
   NsArgFormatBug = FALSE
   ClassnamesAssert = FALSE
   OutOnlyUnchecked = FALSE
+  PragmaCaseSensitive = FALSE
+  RecompileExisting = FALSE
   Variant = "none"
-  Provs <- ProvsSmall
+  Provs <- ProvsIw
   NsArgs <- NsArgsSmall
   SetupBehs = {"ok", "raise"}
   Targets <- TargetsSmall
   KeyU = {1}
   GenDepth = 0
+  MaxStore = 1
+  IwLevel = "full"
+  MethLevel = "off"
 INVARIANT ImplRefinesReq
 INVARIANT MappingHolds
 INVARIANT ReqWellFormed
+CONSTRAINT StoreBound
 CHECK_DEADLOCK FALSE
